@@ -13,21 +13,21 @@ import (
 
 // teardown describes the session teardown routine: the module function that calls LocalState.Delete.
 type teardown struct {
-	fn                                                   *ssa.Function
-	sessIdx                                              int
-	localDelete, subsDelete, sessDelete, byClientID      *types.Func
-	getTopics, sessID, lwt, process, closeM, mountPoint  *types.Func
-	clientID                                             *types.Func
-	paths                                                []*tdPath
+	fn                                                  *ssa.Function
+	sessIdx                                             int
+	localDelete, subsDelete, sessDelete, byClientID     *types.Func
+	getTopics, sessID, lwt, process, closeM, mountPoint *types.Func
+	clientID                                            *types.Func
+	paths                                               []*tdPath
 }
 
 // tdPath is one path of the teardown with its atoms and events.
 type tdPath struct {
-	p                                    *core.Path
-	first, found, mine, disc, will       tri
-	regDeletes, subDeletes, recDeletes   []*core.Call
-	wills                                []*core.Call
-	closes                               int
+	p                                  *core.Path
+	first, found, mine, disc, will     tri
+	regDeletes, subDeletes, recDeletes []*core.Call
+	wills                              []*core.Call
+	closes                             int
 }
 
 type tri struct{ known, val bool }
